@@ -110,6 +110,25 @@ class Ctx:
     def expired(self):
         return time.time() > self.deadline
 
+    def sub_budget(self, fraction):
+        """Context manager: the enclosed part of a check may use at most `fraction` of the time that is left."""
+        ctx = self
+
+        class _Sub:
+            def __enter__(self_):
+                self_.saved = ctx.deadline
+                ctx.deadline = min(ctx.deadline, time.time() + max(5.0, (ctx.deadline - time.time()) * fraction))
+                DEADLINE[0] = ctx.deadline
+
+            def __exit__(self_, *a):
+                ctx.deadline = self_.saved
+                DEADLINE[0] = ctx.deadline
+                if CUT[0] and ctx.exhaustive:
+                    ctx.incomplete('a part of the check used up its share of the time budget before finishing')
+                CUT[0] = False
+                return False
+        return _Sub()
+
     def hit(self, clause, n=1):
         self.clause_hits[clause] = self.clause_hits.get(clause, 0) + n
 
